@@ -341,6 +341,27 @@ JudgeOut judge(const json &plan)
 	for (auto &c : r.conservation)
 		if (c.compare(0, 13, "include-stack") == 0)
 			out.viol.push_back({"include-stack", "after the run: " + c, nullptr});
+	// uninitialised memory: the whole history must not depend on what fresh heap memory contains (every 4th plan)
+	if (!r.died && out.viol.empty() && plan_fingerprint(plan) % 4 == 0) {
+		for (int fill : {0x00, 0xFF}) {
+			ExecOpts eo;
+			eo.fill_override = fill;
+			RunResult fr = execute(plan, eo);
+			add_exec_counters(out, fr);
+			out.k.add("fault.fill_byte.fired");
+			if (fr.hash != r.hash) {
+				// find the first differing step
+				std::string where = "?";
+				for (size_t i = 0; i < r.ops.size() && i < fr.ops.size(); i++)
+					if (r.ops[i].line() != fr.ops[i].line() || r.ops[i].dump != fr.ops[i].dump) {
+						where = "#" + std::to_string(r.ops[i].index) + " " + r.ops[i].op;
+						break;
+					}
+				out.viol.push_back({"O-fill", "the recorded history changes (first at step " + where + ") when fresh heap memory is filled with byte " + std::to_string(fill) + " instead of the plan's fill byte: a result depends on uninitialised memory", nullptr});
+				break;
+			}
+		}
+	}
 	// recovery: the probe into a fresh context equals the probe alone in a fresh image
 	if (!r.died) {
 		long pi = -1, pp = -1;
@@ -382,7 +403,7 @@ Property P = [] {
 		 "hostile option-name paths, comment storms); distinct = distinct plans";
 	p.assumptions = {"damage is seeded, not coverage-guided (libFuzzer is a different technique family and is not used)",
 			 "read errors in the middle of a regular stream (EIO/EINTR) are not injected: no listed property obliges the library to survive them (DESIGN section 5)",
-			 "uninitialised-memory use is observed through ASan/UBSan and the allocator fill byte, not MSan"};
+			 "uninitialised-memory use is observed through ASan/UBSan and, for every 4th plan, a differential over the allocator fill byte (0x00 / 0xFF vs the plan's), not MSan"};
 	p.probes = {"rejected_parse", "error_in_file_or_include"};
 	p.components = {{"confuse.c", "real"}, {"lexer.l (flex 2.6.4 generated)", "real"}, {"glibc stdio", "real"}, {"file namespace / streams", "stub"}, {"exit/abort/assert", "stub: recorded"},
 			{"stdout", "stub: fd 1 redirected to a memfd"}};
